@@ -20,6 +20,7 @@ def step (st : St) (line : String) : St × String :=
     | some d => ({ st with db := st.db ++ [d] }, "-")
     | none => (st, "bad-def")
   | "tok" :: rest => (st, handleTok st.spec rest)
+  | "escape" :: rest => (st, handleEscape rest)
   | "reset" :: _ => ({ st with db := [] }, "-")
   | "open" :: _ => (st, "open e=0")
   | "get" :: rest =>
